@@ -2,4 +2,4 @@
 # usage: tlc.sh <workers> <metadir> <cfg> <module.tla> [extra tlc args]   (cwd = /verif/spec)
 W=$1; M=$2; C=$3; T=$4; shift 4
 export JAVA_TOOL_OPTIONS="${JAVA_TOOL_OPTIONS:--Xss1g}"
-exec java -XX:+UseParallelGC -cp /opt/veriftools/tla/tla2tools.jar:/opt/veriftools/tla/CommunityModules-deps.jar tlc2.TLC -workers "$W" -metadir "$M" -cleanup -noGenerateSpecTE -config "$C" "$T" "$@"
+exec java -Xss1g -XX:+UseParallelGC -cp /opt/veriftools/tla/tla2tools.jar:/opt/veriftools/tla/CommunityModules-deps.jar tlc2.TLC -workers "$W" -metadir "$M" -cleanup -noGenerateSpecTE -config "$C" "$T" "$@"
